@@ -49,7 +49,7 @@ func init() {
 	}})
 }
 
-func (p *c06) NumCases(tier string, seed int64) int { return tierN(tier, 200, 5000) }
+func (p *c06) NumCases(tier string, seed int64) int { return tierN(tier, 200, 10000) }
 
 func (p *c06) Describe(tier string, seed int64, idx int) string {
 	return fmt.Sprintf("C06 round %d seed %d (schedule dependent)", idx, seed)
